@@ -549,6 +549,9 @@ class ConnGen:
             for _ in range(d.int(1, 3)):
                 self.ghosts[self.next_client] = d.choice(['wl_compositor', 'wl_shm', 'wl_surface', 'wl_seat', 'wl_shm_pool', 'xdg_wm_base', 'wl_data_device_manager',
                                                            'wl_subcompositor', 'wl_buffer', 'wl_region', 'zz_custom_v9', 'wl_registry', 'wl_registry'])
+                if self.profile.get('no_unseen_registry') and self.ghosts[self.next_client] == 'wl_registry':
+                    # (GDB mode cannot know that the untyped target of a sent closure is a registry: a bind through it is not judged)
+                    self.ghosts[self.next_client] = 'wl_compositor'
                 self.next_client += 1
         gid = d.choice(sorted(self.ghosts))
         iface = self.ghosts[gid]
